@@ -46,6 +46,11 @@ def configs(ctx):
     out.append(dict(plain="ab", spans=[(0, 0)], source="a<i>b", mode="unchecked", dmp=True))       # D15
     out.append(dict(plain="Id. at 3; id. at 5", spans=[(0, 8), (10, 13)], source="<i>Id. at 3; id.</i> at 5", mode="skip", dmp=True))  # D6
     out.append(dict(plain="abcd xyz", spans=[(0, 0), (5, 6)], source="abcd", mode="unchecked", dmp=True))
+    # the empty annotation list is an annotation set too: the output must still be the TARGET text
+    for src in srcs + ["<p>foo  <i>1 U.S.</i> 1 bar</p>", None]:
+        for mode in ("unchecked", "skip", "wrap"):
+            out.append(dict(plain=plain, spans=[], source=src, mode=mode, dmp=True))
+            out.append(dict(plain=plain, spans=[], source=src, mode=mode, dmp=False))
     for src in srcs:
         for ss in span_sets:
             for mode in ("unchecked", "skip", "wrap"):
@@ -54,7 +59,7 @@ def configs(ctx):
                 out.append(dict(plain=plain, spans=ss, source=src, mode=mode, dmp=True, ba=rng.random() < 0.25))
     for _ in range(6000 if th else 700):
         p, s = AC.gen_pair(rng)
-        k = rng.choice([1, 2, 3, 5])
+        k = rng.choice([0, 1, 2, 3, 5])
         out.append(dict(plain=p, spans=AC.gen_spans(rng, len(p), k), source=rng.choice([s, s, s, None, p]),
                         mode=rng.choice(["unchecked", "skip", "wrap"]), dmp=rng.random() < 0.6, ba=rng.random() < 0.4))
     return out
